@@ -221,7 +221,7 @@ def Sim.op (s : Sim) (tok : String) : Option Sim :=
     pure ((s.modelStep (.flush mode s.full false)).emit "ok")
   | ['P'] =>
     let s := s.modelStep (.flush .required s.full false)
-    pure (s.emit s!"d={utxoStr (utxoOf s.chain) s.known};m={s.tip}")
+    pure (s.emit s!"d={utxoStr (utxoOf s.chain) s.known};m={s.tip};z=1")
   | 'X' :: rest => do
     -- unclean shutdown + start-up with cache size `n` that completes
     let n ← (String.ofList rest).toNat?
